@@ -5,6 +5,12 @@
 #ifndef KANI_ARENA
 #define KANI_ARENA 64
 #endif
+#ifndef KANI_ARENA_BIG
+#define KANI_ARENA_BIG KANI_ARENA
+#endif
+/* Requests whose size is a constant after constant propagation and exceeds the arena get the big block
+   (e.g. a BTreeMap leaf node); everything else gets the fixed small block. */
+#define KANI_BLOCK(size) ((__builtin_constant_p(size) && (size) > KANI_ARENA) ? KANI_ARENA_BIG : KANI_ARENA)
 
 // Declare functions instead of importing more headers in order to avoid conflicting definitions.
 // See https://github.com/model-checking/kani/issues/1774 for more details.
@@ -47,7 +53,7 @@ uint8_t *__rust_alloc(size_t size, size_t align)
     // TODO: Ensure we are doing the right thing with align
     // https://github.com/model-checking/kani/issues/1168
     __KANI_assert(__KANI_is_nonzero_power_of_two(align), "Alignment is power of two");
-    return malloc(KANI_ARENA);
+    return malloc(KANI_BLOCK(size));
 }
 
 // This is a C implementation of the __rust_alloc_zeroed function.
@@ -66,7 +72,7 @@ uint8_t *__rust_alloc_zeroed(size_t size, size_t align)
     // TODO: Ensure we are doing the right thing with align
     // https://github.com/model-checking/kani/issues/1168
     __KANI_assert(__KANI_is_nonzero_power_of_two(align), "Alignment is power of two");
-    return calloc(1, KANI_ARENA);
+    return calloc(1, KANI_BLOCK(size));
 }
 
 // This is a C implementation of the __rust_dealloc function.
@@ -85,7 +91,7 @@ struct Unit __rust_dealloc(uint8_t *ptr, size_t size, size_t align)
     // https://github.com/model-checking/kani/issues/1168
     __KANI_assert(__KANI_is_nonzero_power_of_two(align), "Alignment is power of two");
 
-    __KANI_assert(__CPROVER_OBJECT_SIZE(ptr) == KANI_ARENA,
+    __KANI_assert(__CPROVER_OBJECT_SIZE(ptr) == KANI_ARENA || __CPROVER_OBJECT_SIZE(ptr) == KANI_ARENA_BIG,
                   "rust_dealloc must be called on an object whose allocated size matches its layout");
     free(ptr);
     return VoidUnit;
